@@ -111,6 +111,15 @@ class Serializable(object):  # pylint: disable=too-few-public-methods
         return result
 
     @staticmethod
+    def _unordered_item_sort_key(item):
+        if isinstance(item, six.integer_types):
+            return (0, int(item), '')
+        if isinstance(item, enum.Enum):
+            return (1, 0, item.name)
+
+        return (2, 0, repr(item))
+
+    @staticmethod
     def _json_result(obj):
         if isinstance(obj, enum.Enum):
             if isinstance(obj.value, CryptoDataParamsBase):
@@ -142,7 +151,12 @@ class Serializable(object):  # pylint: disable=too-few-public-methods
             ])
         elif hasattr(obj, '__dict__'):
             result = Serializable._json_traverse(obj.__dict__, result_func)
-        elif isinstance(obj, (list, tuple, frozenset, set)):
+        elif isinstance(obj, (frozenset, set)):
+            result = [
+                Serializable._json_traverse(item, result_func)
+                for item in sorted(obj, key=Serializable._unordered_item_sort_key)
+            ]
+        elif isinstance(obj, (list, tuple)):
             result = [Serializable._json_traverse(item, result_func) for item in obj]
         else:
             result = result_func(obj)
@@ -258,7 +272,9 @@ class Serializable(object):  # pylint: disable=too-few-public-methods
             result = cls._markdown_result(obj._asdict(), level)
         elif hasattr(obj, '__dict__') or isinstance(obj, dict):
             result = cls._markdown_result_complex(obj, level)
-        elif isinstance(obj, (list, tuple, frozenset, set, ArrayBase)):
+        elif isinstance(obj, (frozenset, set)):
+            result = cls._markdown_result_list(sorted(obj, key=Serializable._unordered_item_sort_key), level)
+        elif isinstance(obj, (list, tuple, ArrayBase)):
             result = cls._markdown_result_list(obj, level)
         elif isinstance(obj, (bytes, bytearray)):
             result = cls.post_text_encoder(bytes_to_hex_string(obj, separator=':', lowercase=False), level)
